@@ -28,6 +28,12 @@ impl AddSpecImpl<Work> for Work {
     open spec fn add_spec(self, rhs: Work) -> Work { Work(((self.0 + rhs.0) % 0x1_0000_0000_0000_0000) as u64) }
 }
 impl core::ops::Add<Work> for Work { type Output = Work; #[verifier::external_body] fn add(self, rhs: Work) -> (r: Work) { Work(self.0.wrapping_add(rhs.0)) } }
+impl PartialOrdSpecImpl for Work {
+    open spec fn obeys_partial_cmp_spec() -> bool { true }
+    open spec fn partial_cmp_spec(&self, other: &Work) -> Option<core::cmp::Ordering> {
+        if self.0 < other.0 { Some(core::cmp::Ordering::Less) } else if self.0 == other.0 { Some(core::cmp::Ordering::Equal) } else { Some(core::cmp::Ordering::Greater) } }
+}
+impl PartialOrd for Work { #[verifier::external_body] fn partial_cmp(&self, o: &Work) -> (r: Option<core::cmp::Ordering>) { self.0.partial_cmp(&o.0) } }
 #[derive(Clone, Copy)] pub struct Target(pub u64);
 impl PartialEqSpecImpl for Target { open spec fn obeys_eq_spec() -> bool { true } open spec fn eq_spec(&self, other: &Target) -> bool { self.0 == other.0 } }
 impl PartialEq for Target { fn eq(&self, o: &Target) -> (r: bool) { self.0 == o.0 } }
